@@ -28,7 +28,10 @@ type c08Result struct {
 // plus the resolved stack trace of an uncaught error (pool-free route to
 // SourceFileSet.Position).
 func c08RunOne(bc *ugo.Bytecode, w *sim.World, args []ugo.Object) c08Result {
-	vm := ugo.NewVM(bc).SetRecover(true)
+	return c08RunVM(ugo.NewVM(bc).SetRecover(true), w, args)
+}
+
+func c08RunVM(vm *ugo.VM, w *sim.World, args []ugo.Object) c08Result {
 	ret, err := vm.Run(w.Globals, args...)
 	res := c08Result{out: sim.MakeOutcome(ret, err, w.Hist)}
 	if re, ok := err.(*ugo.RuntimeError); ok {
@@ -113,12 +116,30 @@ func c08Run(rc *sim.RunCtx) {
 	defer restore()
 	conc := make([]c08Result, n)
 	worlds := make([]*sim.World, n)
+	vms := make([]*ugo.VM, n)
 	for i := 0; i < n; i++ {
 		i := i
 		worlds[i] = sim.NewWorld(specs[i], nil)
+		vms[i] = ugo.NewVM(bc).SetRecover(true)
 		s.Go("vm-"+c08WIDs[i], func() {
-			conc[i] = c08RunOne(bc, worlds[i], nil)
+			conc[i] = c08RunVM(vms[i], worlds[i], nil)
 		})
+	}
+	// in a quarter of the runs the host aborts one VM at a drawn instruction: the others must not notice
+	victim := -1
+	if t.Bool(1, 4) {
+		victim = t.Draw(n)
+		at := int64(1 + t.Draw(600))
+		aborter := s.Go("aborter", func() {
+			s.Point(sim.PStartWait)
+			vms[victim].Abort()
+		})
+		s.Enabled = func(s *sim.Sched, th *sim.SimThread) bool {
+			if th == aborter && th.Point() == sim.PStartWait {
+				return s.Thread(victim).Loops() >= at || s.Thread(victim).Done()
+			}
+			return true
+		}
 	}
 	mode := t.Draw(4)
 	s.Quantum = func(t *sim.Tape) int32 {
@@ -199,7 +220,13 @@ func c08Run(rc *sim.RunCtx) {
 		rc.Fail("no-progress", "concurrent-run-does-not-finish", "deadlock=%q overrun=%v", s.Deadlock, s.Overrun)
 		return
 	}
+	if victim >= 0 {
+		rc.Fault("abort-of-one-vm")
+	}
 	for i := range conc {
+		if i == victim {
+			continue // its outcome depends on where the abort landed
+		}
 		if !conc[i].out.Equal(solo[i].out) || conc[i].trace != solo[i].trace {
 			rc.Decoded = decoded()
 			kind := "outcome"
@@ -225,7 +252,7 @@ func init() {
 		ID:    "C08",
 		Level: "exploration",
 		Rule: "each run compiles one generated script (closures, imports of generated/fixed source modules and builtin modules, thrown errors resolved with trace() and sprintf(\"%+v\"), writes to builtin-module values, callbacks through pooled child VMs; sometimes after an encode/decode round trip) " +
-			"and runs it on 2–4 VMs, each on its own simulated thread with its own world (different WID, fault table, choices); thread choice and quantum are drawn at every hook point. " +
+			"and runs it on 2–4 VMs, each on its own simulated thread with its own world (different WID, fault table, choices); thread choice and quantum are drawn at every hook point; in a quarter of the runs the host aborts one of the VMs at a drawn instruction. " +
 			"Oracles: every VM's outcome, history and resolved error trace equal its solo run; the Bytecode's semantic fingerprint is unchanged; in the race arm the Go race detector must stay silent. " +
 			"Non-trivial = at least 2 context switches; distinct = distinct context-switch sequences.",
 		Assumptions: []string{
